@@ -8,7 +8,7 @@ ID = "C20"
 LEVEL = "exploration"
 RULE = ("cases are directory trees (entries: regular file - with ordinary, read-only, no, read+execute or write-only permission bits - / directory with children / symlink to a file inside, "
         "to a file outside DIR, or dangling) over the property's name set (incl. names that are not valid UTF-8 and groups of siblings that differ only in letter case), with DIR itself named plainly or like a source file / a bytecode file / hidden / with a space / non-ASCII and spelled relative, ./relative, "
-        "trailing slash, absolute or omitted; enumerated part = every 1- and 2-entry DIR over (name x kind); random part "
+        "trailing slash, absolute or omitted; enumerated part = every 1- and 2-entry DIR over (name x kind) plus a stem family (every one-character stem, every prefix and suffix of the words the tool spells - transpiled, mmm, ms, clean - as <stem>.mmm); random part "
         "= Hypothesis trees with up to 8 entries and sub-directories. Non-trivial = DIR holds at least one regular "
         "*.mmm file AND (a near-miss name or a directory/symlink named *.mmm or a sub-directory holding *.mmm); "
         "distinct = canonical tree + spelling")
@@ -22,6 +22,10 @@ NAMES = ["x.mmm", "y.mmm", "x.ms", "x.mmm.bak", "x.transpiled.mmm", ".mmm", "mmm
          "caf\udce9.mmm", "\udcff.mmm", "x.mmm\udce9", "caf\udce9.ms",
          # siblings that differ only in letter case / form one prefix of the other (entries must be handled one by one)
          "X.mmm", "Vector.mmm", "vector.mmm", "VECTOR.mmm", "x.mmm.mmm", "x"]
+_WORDS = ["transpiled", "mmm", "ms", "clean", "mscript"]
+STEMS = sorted(set([c + ".mmm" for c in "abcdefghijklmnopqrstuvwxyzABCDEFGHIJKLMNOPQRSTUVWXYZ0123456789_-"]
+                   + [w[i:] + ".mmm" for w in _WORDS for i in range(len(w))] + [w[:i] + ".mmm" for w in _WORDS for i in range(1, len(w) + 1)]
+                   + ["x." + w[i:] + ".mmm" for w in _WORDS[:1] for i in range(len(w))]))
 KINDS = ["file", "dir", "ln_in", "ln_out", "ln_dangling", "file_ro", "file_none", "file_rx", "file_wo"]
 # permission bits of the FILE do not decide whether it can be deleted (the directory's do): read-only, inaccessible,
 # executable and write-only bytecode files are files like any other
@@ -211,6 +215,11 @@ def enumerated(tier, seed):
     for group in (["x.mmm", "X.mmm"], ["Vector.mmm", "vector.mmm", "VECTOR.mmm"], ["x.mmm", "x.mmm.mmm", "x"], ["\u00e9.mmm", "x.mmm", "X.mmm", "x.MMM"]):
         for kinds in (["file"] * len(group), ["file"] + ["ln_in"] * (len(group) - 1), ["dir"] + ["file"] * (len(group) - 1)):
             cases.append({"entries": [(n, k, [("x.mmm", "file")] if k == "dir" else []) for n, k in zip(group, kinds)], "spell": "rel"})
+    # stem family: every one-character stem and every suffix / prefix of the words the tool itself spells ("transpiled", "mmm",
+    # "ms", "clean"): a name test that compares text position by position must not match a shorter name
+    cases.append({"entries": [(n, "file", []) for n in STEMS], "spell": "rel"})
+    for n in STEMS:
+        cases.append({"entries": [(n, "file", []), ("keep.ms", "file", [])], "spell": "rel"})
     # the NAME of DIR itself (named like a source file, like a bytecode file, hidden, with a space, non-ASCII) x every spelling
     probe = [("x.mmm", "file", []), ("x.ms", "file", []), ("sub", "dir", [("x.mmm", "file")])]
     for dn in DIRNAMES:
@@ -221,7 +230,7 @@ def enumerated(tier, seed):
 
 @st.composite
 def trees(draw):
-    names = draw(st.lists(st.sampled_from(NAMES), min_size=1, max_size=8, unique=True))
+    names = draw(st.lists(st.sampled_from(NAMES) | st.sampled_from(STEMS), min_size=1, max_size=8, unique=True))
     entries = []
     for n in names:
         k = draw(st.sampled_from(["file", "file", "file"] + KINDS))
